@@ -505,6 +505,24 @@ def r5_indicators(ctx, repo):
     ps = func_params(ea)
     ref, comp = ps[0], ps[1]
     outer = [s for s in ea.body if isinstance(s, ast.For)]
+    if not outer:
+        # array form: the returned value as a term
+        rts_ = [t for _, t in Terms(ea).returns if t is not None]
+        if len(rts_) == 1:
+            rt_ = rts_[0]
+            while isinstance(rt_, ast.Call) and access_path(rt_.func) in ("float", "np.float64") and len(rt_.args) == 1:
+                rt_ = rt_.args[0]
+            red = [(access_path(c_.func) or "").split(".")[-1] for c_ in ast.walk(rt_) if isinstance(c_, ast.Call)]
+            nest = [r_ for r_ in red if r_ in ("max", "amax", "nanmax", "min", "amin", "nanmin")]
+            zero_floor = isinstance(rt_, ast.Call) and (access_path(rt_.func) or "").split(".")[-1] in ("max", "maximum", "fmax") and len(rt_.args) == 2 \
+                and any(is_const(a_) and const_value(a_) == 0 for a_ in rt_.args)
+            if len(nest) >= 3 and not zero_floor and isinstance(rt_, ast.Call) and (access_path(rt_.func) or "").split(".")[-1] in ("max", "amax", "nanmax") \
+                    and len(rt_.args) == 1:
+                ctx.violated("R5", C, where(mod, ea), "the indicator is returned as %s, a max-min-max of coordinate differences without the floor at 0: when every reference point is strictly "
+                             "dominated by a computed point the result is negative (the property requires a non-negative indicator, 0 for such sets)" % text(rt_)[:140], key="nest")
+                return
+        ctx.inconclusive("R5", C, where(mod, ea), "outer loop not recognised")
+        return
     if len(outer) != 1 or not isinstance(outer[0].target, ast.Name):
         ctx.inconclusive("R5", C, where(mod, ea), "outer loop not recognised")
         return
